@@ -16,7 +16,7 @@ open Drv Lean
 
 def genFor (prop tier : String) (seed : Nat) : Except String (Array Case) :=
   match prop with
-  | "C01" => pure (genC01Cases tier seed ++ pairwiseSimpleCases "c01")
+  | "C01" => pure (genC01Cases tier seed ++ pairwiseSimpleCases "c01" ++ exhaustiveTreeCases "c01")
   | "C02" => pure (genC02Cases tier seed ++ pairwiseNestedCases "c02")
   | "C03" =>
     let base := genC03Cases tier seed
